@@ -227,6 +227,10 @@ func c06Containers(r *mc.Report, n int, orderDev int, shard, nshards int) {
 					continue
 				}
 				c06Config(r, cfgCase{N: n, Mask: mask, Life: life, Target: t, Shape: "in"}, orderDev)
+				if n <= 3 && mask != 0 {
+					// the same set with every dependency declared optional (and registered)
+					c06Config(r, cfgCase{N: n, Mask: mask, Life: life, Target: t, Shape: "in", OptMask: mask}, orderDev)
+				}
 			}
 		}
 	}
@@ -295,8 +299,8 @@ func c06Topo(r *mc.Report, n int, orderDev int, shard, nshards int) {
 
 func init() {
 	mc.Register(&mc.Check{
-		Prop: "C06",
-		Rule: "container: all digraphs on <=3 services x all per-target forms {plain, keyed, group} x 2-4 lifetime patterns, the 64 DAGs (+ sampled-by-mask cyclic sets) on 4 services x uniform forms, and 12 configurations with a two-member group whose members have dependencies; each x ALL permutations of the registration calls (intra-group order preserved) x canonical and reversed base map-iteration order, plus every single non-identity permutation of one map range during Build (order deviation 1; 2 in thorough for n<=3): one verdict class and one canonical object graph per configuration, and every singleton constructed after the singletons it depends on (group edges included). Graph component: every labelled DAG on <=4 nodes (543) x both base orders x order deviation 1 (2 thorough): TopologicalSort lists every node once, dependencies first. distinct = (size, forms, verdict) classes.",
+		Prop:        "C06",
+		Rule:        "container: all digraphs on <=3 services x all per-target forms {plain, keyed, group} x 2-4 lifetime patterns (each also with every dependency declared optional), the 64 DAGs (+ sampled-by-mask cyclic sets) on 4 services x uniform forms, and 12 configurations with a two-member group whose members have dependencies; each x ALL permutations of the registration calls (intra-group order preserved) x canonical and reversed base map-iteration order, plus every single non-identity permutation of one map range during Build (order deviation 1; 2 in thorough for n<=3): one verdict class and one canonical object graph per configuration, and every singleton constructed after the singletons it depends on (group edges included). Graph component: every labelled DAG on <=4 nodes (543) x both base orders x order deviation 1 (2 thorough): TopologicalSort lists every node once, dependencies first. distinct = (size, forms, verdict) classes.",
 		Assume:      []string{"map iteration order is a controlled choice: every `range` over a map in godi is redirected to the explorer", "repeated builds with different hash seeds are subsumed by the enumerated iteration orders"},
 		MinOutcomes: 6,
 		Jobs: func(tier string) []mc.Job {
